@@ -227,6 +227,19 @@ impl Stats {
     }
 }
 
+/// Under the coverage-guided driver one execution probes a tape-chosen handful of faults
+/// instead of enumerating all of them (libFuzzer supplies the enumeration).
+fn lean_subset(v: &mut Vec<usize>, keep: usize, seed: u64) {
+    if std::env::var_os("VERIF_FUZZ_ID").is_none() || v.len() <= keep {
+        return;
+    }
+    let picks = expand_bytes(seed, keep * 8);
+    let mut outv: Vec<usize> = picks.chunks(8).map(|c| v[(u64::from_le_bytes(c.try_into().unwrap()) % v.len() as u64) as usize]).collect();
+    outv.sort();
+    outv.dedup();
+    *v = outv;
+}
+
 fn c17_run<const H: usize>(case: &C17Case, out: &mut CaseOut) {
     let scratch = Scratch::new("c17");
     let path = scratch.path().join("seg");
@@ -366,6 +379,7 @@ fn c17_run<const H: usize>(case: &C17Case, out: &mut CaseOut) {
             }
         }
     }
+    lean_subset(&mut bits, 24, case.sample_seed as u64 ^ 0xB175);
     // file-based probing for every head bit and a sample of body bits; in-memory for all
     let file_every = if small { (bits.len() / 400).max(1) } else { 1 };
     let mut fail: Option<(String, String)> = None;
@@ -414,6 +428,7 @@ fn c17_run<const H: usize>(case: &C17Case, out: &mut CaseOut) {
                 starts.push(head_end * 8 + (x as usize % body_bits));
             }
         }
+        lean_subset(&mut starts, 8, case.sample_seed as u64 ^ 0x57A7);
         let lens = expand_bytes(case.sample_seed as u64 ^ 0x1E57, starts.len() * 5);
         'burst: for (si, s) in starts.iter().enumerate() {
             let blen = 2 + (lens[si * 5] as usize % 31); // 2..=32
@@ -475,6 +490,7 @@ fn c17_run<const H: usize>(case: &C17Case, out: &mut CaseOut) {
             }
             cuts.push(rec_end - 1);
         }
+        lean_subset(&mut cuts, 12, case.sample_seed as u64 ^ 0xC0C0);
         let tpath = scratch.path().join("trunc");
         let step = if small { (cuts.len() / 300).max(1) } else { 1 };
         for (ci, cut) in cuts.iter().enumerate() {
